@@ -34,3 +34,10 @@ class Context:
     def src(self, rel):
         with open(os.path.join(self.repo, rel)) as fh:
             return fh.read()
+
+    @property
+    def isa(self):
+        """the hand-written ISA oracle (spec/lc3_isa.json)"""
+        here = os.path.dirname(os.path.dirname(os.path.dirname(os.path.abspath(__file__))))
+        with open(os.path.join(here, "spec", "lc3_isa.json")) as fh:
+            return json.load(fh)
